@@ -547,7 +547,10 @@ func checkC18(c *Ctx) {
 	// 4. yaml number types
 	accepted := map[string]map[string]bool{}
 	for _, fnName := range []string{"parseByteLimit", "parseGzipConfig"} {
-		fn := p.Fn("internal/plugins", "", fnName)
+		fn := c.byteLimitParser()
+		if fnName == "parseGzipConfig" {
+			fn = c.gzipOptionParser()
+		}
 		if fn == nil {
 			c.Missing("option-number-types", "plugins."+fnName)
 			continue
@@ -631,6 +634,19 @@ func (c *Ctx) switchStrings(fn *ssa.Function) []string {
 // loggingTables: the two map literals of validateLogging, told apart by the field they guard.
 func (c *Ctx) loggingTables() (levels, formats []string) {
 	fn := c.P.Fn("internal/config", "Config", "validateLogging")
+	if fn == nil {
+		// the validator that looks the logging level up in a table, whatever it is called
+		for _, f := range c.P.Funcs {
+			if pk := fnPkg(f); pk == nil || !strings.HasSuffix(pk.Pkg.Path(), "/internal/config") {
+				continue
+			}
+			instrsOf(f, func(in ssa.Instruction) {
+				if lk, ok := in.(*ssa.Lookup); ok && strings.Contains(c.P.Desc(lk.Index, nil), "LoggingConfig.Level") {
+					fn = f
+				}
+			})
+		}
+	}
 	if fn == nil {
 		return nil, nil
 	}
@@ -935,6 +951,13 @@ func (c *Ctx) strategyKeyAgreement() {
 	p := c.P
 	construct := "validateLoadBalancer-vs-createStrategy/key"
 	val := p.Fn("internal/config", "Config", "validateLoadBalancer")
+	if val == nil {
+		for _, f := range p.Funcs {
+			if pk := fnPkg(f); pk != nil && strings.HasSuffix(pk.Pkg.Path(), "/internal/config") && contains(c.mapLiteralKeys(f), "round_robin") {
+				val = f
+			}
+		}
+	}
 	cre := c.strategyFactory()
 	if val == nil || cre == nil {
 		c.Missing("enum-agreement", construct)
